@@ -35,6 +35,9 @@ func runC07(c *Ctx) {
 	r.Rule("R9-session-belongs-to-request", "the session the injectors read is this request's own: bearer claims are decoded into a per-invocation object (shared with C04.R8) and a request that waited for the refresh lock continues with the reloaded session (shared with C12.R2)", 4)
 	r.Rule("R12-session-groups-never-edited-in-place", "no code that reads the session's group list (Authorize, constraints, providers, injectors) filters, sorts or overwrites it in place; the injected group headers are the session's (round 7)", 1)
 	runC07R12(c, "R12-session-groups-never-edited-in-place")
+	r.Rule("R13-alpha-header-lists-verbatim", "the structured configuration's injectRequestHeaders / injectResponseHeaders reach the options as a whole: an entry with a name and no values is the operator's way to say 'strip only' (round 8)", 2)
+	runAlphaMergeVerbatim(c, "R13-alpha-header-lists-verbatim", "InjectRequestHeaders", "InjectRequestHeaders", "alpha-request-headers-whole", "entries of the structured injectRequestHeaders (a named header without values: strip only) do not reach the options, so client values under that name pass to the upstream")
+	runAlphaMergeVerbatim(c, "R13-alpha-header-lists-verbatim", "InjectResponseHeaders", "InjectResponseHeaders", "alpha-response-headers-whole", "entries of the structured injectResponseHeaders do not reach the options")
 	r.Rule("R10-header-config-verbatim", "the operator's injected-header configuration (headers and their value lists) is never written between option loading and the injector builders", 3)
 	runC07R10(c, "R10-header-config-verbatim")
 	r.Rule("R11-loader-switches", "the switches that decide how flags, environment and config file combine into option values (skip-auth-strip-headers among them) are a reviewed closed list (shared with C15.R9)", 1)
